@@ -382,20 +382,43 @@ func extractBan() {
 			strings.Contains(body, "for_,sp:=ranges.Peers(){peerNet,err:=banman.ParseIPNet(sp.Addr(),nil)iferr!=nil{continue}ifpeerNet.String()==banned.String(){sp.Disconnect()}}"),
 			"and then every peer of s.Peers() whose address parses to the banned network (ParseIPNet(sp.Addr(), nil).String() == ParseIPNet(addr, nil).String())")
 	}
-	// BanPeer call sites outside neutrino.go and their reasons
-	var sites []string
+	// BanPeer call sites outside neutrino.go: the SET of (file, reason) pairs (a call moved into a helper of the
+	// same file, or two identical calls folded into one, is the same set), and what the GetBlock handler does
+	// with a block that fails validation, following calls into same-file helpers.
+	isBan := func(c call) bool {
+		n := strings.TrimPrefix(c.name, "defer ")
+		return (n == "s.BanPeer" || strings.HasSuffix(n, "cfg.BanPeer")) && len(c.args) == 2
+	}
+	reasons := map[string]bool{}
 	for _, file := range []string{"query.go", "blockmanager.go"} {
 		ff := parse(file)
 		if ff == nil {
 			continue
 		}
 		for _, c := range calls(ff) {
-			if (c.name == "s.BanPeer" || strings.HasSuffix(c.name, "cfg.BanPeer")) && len(c.args) == 2 {
-				sites = append(sites, file+":"+squeeze(c.args[1]))
+			if isBan(c) {
+				reasons[file+":"+squeeze(c.args[1])] = true
 			}
 		}
 	}
-	l.def("banPeerSites", "List String", lstrs(sites), "BanPeer call sites (file:reason) in query.go and blockmanager.go, in source order")
-	shape["banPeerSites"] = sites
+	var rl []string
+	for r := range reasons {
+		rl = append(rl, r)
+	}
+	sort.Strings(rl)
+	l.def("banPeerReasons", "List String", lstrs(rl), "the set of file:reason pairs of the BanPeer calls in query.go and blockmanager.go (sorted)")
+	shape["banPeerReasons"] = rl
+	qf := parse("query.go")
+	getBlockBans := false
+	if fd := funcDecl(qf, "ChainService", "GetBlock"); fd == nil {
+		fail("query.go: method ChainService.GetBlock")
+	} else {
+		for _, c := range callsInlined(qf, fd.Body) {
+			if isBan(c) && squeeze(c.args[1]) == "banman.InvalidBlock" {
+				getBlockBans = true
+			}
+		}
+	}
+	put("getBlockBansInvalidBlock", getBlockBans, "GetBlock (helpers of query.go included) calls BanPeer(peer, banman.InvalidBlock)")
 	facts["ban"] = shape
 }
